@@ -633,7 +633,8 @@ def spell_line(cfg, uses, rng, style=None, group_flags=True):
 def scenario_text(sid, tag, cfg, argv, prog="prog"):
     L = ["S %s %s" % (sid, tag)]
     if cfg.groups is None:
-        L.append("F %d" % cfg.flags)
+        # 'list argument groups' only exists for handlers of a group
+        L.append("F %d" % (cfg.flags & ~HF["listArgGroups"]))
     else:
         L.append("GF %d" % cfg.group_flags)
     for a in cfg.args:
